@@ -112,7 +112,13 @@ def one_case(ctx, li, spec, ops, s, args):
     for name, sc in scheds:
         obs, res, err = run_with(s, args, spec, ops, sc)
         outs[name] = obs
-        ctx.evaluations += 1
+        if sc.mode == "priority":
+            # the same schedule on the model (the engine with the re-check order as a parameter)
+            ctx.case("(infersched (" + " ".join(str(x) for x in sc.perm) + ") " + I.schema_sexp(s) + "".join(" " + I.arg_sexp(a) for a in args) + ")", obs,
+                {"lang": spec.to_json(), "schema": I.schema_src(s, spec), "args": [I.term_sexp(a[1]) for a in args], "priority": list(sc.perm)},
+                nontrivial=True, key=(li, I.schema_sexp(s), tuple(I.arg_sexp(a) for a in args), sc.perm))
+        else:
+            ctx.evaluations += 1
     distinct = set(outs.values())
     ctx.count("schedules", len(outs))
     if len(distinct) > 1:
